@@ -36,6 +36,11 @@ def BOUND(tier):
     }[tier]
 
 
+def decoy():
+    from mc.lib import decoy as decoy_mod
+    decoy_mod.classification().close()
+
+
 def selftest():
     cs.selftest()
 
